@@ -16,7 +16,7 @@ Inductive lop :=
 
 Record lst := {
   queues : list (list nat);         (* one FIFO of payload ids per listener *)
-  handles : nat -> option nat;
+  handles : list (nat * nat);      (* (slot, payload id), slots pairwise distinct *)
   refs : nat -> nat;
   drops : nat -> nat;
   sent : list nat;
@@ -24,6 +24,9 @@ Record lst := {
 }.
 
 Definition updn {A} (f : nat -> A) (i : nat) (x : A) : nat -> A := fun j => if Nat.eqb j i then x else f j.
+Definition hget (hs : list (nat * nat)) (h : nat) : option nat := option_map snd (find (fun e => Nat.eqb (fst e) h) hs).
+Fixpoint hdel (hs : list (nat * nat)) (h : nat) : list (nat * nat) :=
+  match hs with [] => [] | e :: r => if Nat.eqb (fst e) h then r else e :: hdel r h end.
 
 Section Life.
 Variable drains : bool.             (* does the teardown drop buffered payloads / queued copies? *)
@@ -41,25 +44,25 @@ Definition lstep (s : lst) (o : lop) : lst :=
       {| queues := map (fun q => q ++ [id]) (queues s); handles := handles s; refs := updn (refs s) id k;
          drops := if Nat.eqb k 0 then updn (drops s) id (drops s id + 1) else drops s; sent := id :: sent s; torn := false |}
   | LRecv l h =>
-      match nth_error (queues s) l, handles s h with
+      match nth_error (queues s) l, hget (handles s) h with
       | Some (id :: rest), None =>
           if torn s then s else
-          {| queues := firstn l (queues s) ++ [rest] ++ skipn (S l) (queues s); handles := updn (handles s) h (Some id);
+          {| queues := firstn l (queues s) ++ [rest] ++ skipn (S l) (queues s); handles := (h, id) :: handles s;
              refs := refs s; drops := drops s; sent := sent s; torn := false |}
       | _, _ => s
       end
   | LClone h h2 =>
-      match handles s h, handles s h2 with
+      match hget (handles s) h, hget (handles s) h2 with
       | Some id, None =>
-          if clones then {| queues := queues s; handles := updn (handles s) h2 (Some id); refs := updn (refs s) id (refs s id + 1);
+          if clones then {| queues := queues s; handles := (h2, id) :: handles s; refs := updn (refs s) id (refs s id + 1);
                             drops := drops s; sent := sent s; torn := torn s |}
           else s
       | _, _ => s
       end
   | LDrop h =>
-      match handles s h with
+      match hget (handles s) h with
       | Some id => let '(r, d) := release (refs s) (drops s) id in
-                   {| queues := queues s; handles := updn (handles s) h None; refs := r; drops := d; sent := sent s; torn := torn s |}
+                   {| queues := queues s; handles := hdel (handles s) h; refs := r; drops := d; sent := sent s; torn := torn s |}
       | None => s
       end
   | LTeardown =>
@@ -71,7 +74,7 @@ Definition lstep (s : lst) (o : lop) : lst :=
   end.
 
 Definition linit (k : nat) : lst :=
-  {| queues := repeat [] k; handles := fun _ => None; refs := fun _ => 0; drops := fun _ => 0; sent := []; torn := false |}.
+  {| queues := repeat [] k; handles := []; refs := fun _ => 0; drops := fun _ => 0; sent := []; torn := false |}.
 
 (* what the correspondence check compares: after every operation, the destructor count of every payload sent so far *)
 Definition snapshot (s : lst) : list Z := flat_map (fun id => [2; 0; 60; Z.of_nat id; Z.of_nat (drops s id)]%Z) (rev (sent s)).
